@@ -78,7 +78,7 @@ fn parse_hist(s: &str) -> Option<(i64, BTreeMap<usize, i64>)> {
 
 pub fn check_trace(s: &Script, tr: &Trace, rep: &mut Report) -> Outcome {
     let mut out = Outcome { reclaimed: 0, evicted_for_room: 0, rejected: 0, clears: 0, ticks: 0, lookups: 0, updates: 0, vetoes: 0, out_of_domain: false };
-    let kb = Kb { collide: s.cfg.collide };
+    let kb = Kb { collide: s.cfg.collide, zero_even: s.cfg.collide_zero_even };
     let collide = s.cfg.collide;
     let overhead: i64 = if s.cfg.ignore_internal { 0 } else { tr.item_size as i64 };
     let interval = tr.interval_ns.max(1);
@@ -95,6 +95,7 @@ pub fn check_trace(s: &Script, tr: &Trace, rep: &mut Report) -> Outcome {
     let mut hist_expect: BTreeMap<usize, i64> = BTreeMap::new();
     let mut charges_in_domain = true;
     let mut prev_excess: i128 = 0;
+    let mut prev_resident_excess: i128 = 0;
     // look-up stream shadow (C15)
     let capa = s.cfg.buffer_items.max(1);
     let mut ring_pending: Vec<u64> = Vec::new();
@@ -278,6 +279,15 @@ pub fn check_trace(s: &Script, tr: &Trace, rep: &mut Report) -> Outcome {
                         }
                         (None, None) => {}
                         (Some(e), None) => fail!("C04", "get_mut/missing", "get_mut(k{k}) found nothing, model has #{:x}", e.id),
+                        (None, Some(g)) if g.key != *k => {
+                            fail!("C18", "collision/get_mut-exposed-other-key", "get_mut(k{k}) exposed (and wrote to) #{:x}, the value of key {}", g.id, g.key);
+                            also!("C02", "lookup/foreign-value", format!("get_mut(k{k}) returned a value written under key {}", g.key));
+                            // the in-place write went into the other key's entry
+                            if let Some(e) = slots.get_mut(&index) {
+                                dead_ids.insert(e.id);
+                                e.id = *new_id;
+                            }
+                        }
                         (None, Some(g)) => fail!("C03", "get_mut/served-absent-or-expired", "get_mut(k{k}) exposed #{:x} although the model has no visible entry", g.id),
                     }
                 }
@@ -305,6 +315,7 @@ pub fn check_trace(s: &Script, tr: &Trace, rep: &mut Report) -> Outcome {
                     m_pushed_keys = 0;
                     hist_expect.clear();
                     prev_excess = 0;
+                    prev_resident_excess = 0;
                 }
                 Step::UpdateMaxCost { m } => {
                     max_cost = *m;
@@ -616,6 +627,14 @@ pub fn check_trace(s: &Script, tr: &Trace, rep: &mut Report) -> Outcome {
                     fail!("C01", "used/over-max-without-update", "used {} exceeds max_cost {} by {excess} (was {prev_excess}) after {}", o.snap.used, o.snap.max_cost, step.short());
                 }
                 prev_excess = excess;
+                // ... and the same for the cost of what is really resident: an entry that is resident
+                // but no longer charged (its charge as last known to the model) still occupies the cache
+                let resident_cost: i128 = o.snap.store.iter().map(|e| policy.get(&e.index).map(|c| *c as i128).or_else(|| slots.get(&e.index).map(|m| m.charge as i128)).unwrap_or(0)).sum();
+                let rexcess = (resident_cost - o.snap.max_cost as i128).max(0);
+                if rexcess > prev_resident_excess && rexcess > excess && !step_is_update && !matches!(step, Step::Clear) {
+                    fail!("C01", "resident-cost/over-max-without-update", "the entries resident in the store cost {resident_cost} in total (charged or as last charged), max_cost is {} (policy says used {}) after {}", o.snap.max_cost, o.snap.used, step.short());
+                }
+                prev_resident_excess = rexcess;
             }
             if o.snap.max_cost != max_cost {
                 fail!("C01", "max_cost/not-stored", "max_cost() = {} after update_max_cost({max_cost})", o.snap.max_cost);
